@@ -94,6 +94,12 @@ def justifiedPN (past : List Op) (m : Bytes) : Option PNMsg :=
     | _, _ => none
   else none
 
+/-- what relabelling the value bytes by `f` does to a reported message: both halves of the parameter number and
+    of a 14-bit value (or the single byte of a 7-bit value) go through `f`; nothing else changes -/
+def relabelMsg (f : Nat → Nat) (r : PNMsg) : PNMsg :=
+  { r with number := 128 * f (r.number / 128) + f (r.number % 128),
+           value := if r.is14Bit then 128 * f (r.value / 128) + f (r.value % 128) else f r.value }
+
 /-- C09: the four slots a (N)RPN message encodes to -/
 def specPNEncoding (m : PNMsg) (order : ByteOrder) : List (Option Bytes) :=
   let s := 176 + m.channel
